@@ -198,8 +198,10 @@ static void janet_escape_buffer_b(JanetBuffer *buffer, JanetBuffer *bx) {
         /* Ensures buffer won't resize while escaping */
         janet_buffer_ensure(bx, bx->count + 5 * bx->count + 3, 1);
     }
+    /* (when a buffer is printed into itself, what is printed is what it held before the '@') */
+    int32_t count = bx->count;
     janet_buffer_push_u8(buffer, '@');
-    janet_escape_string_impl(buffer, bx->data, bx->count);
+    janet_escape_string_impl(buffer, bx->data, count);
 }
 
 void janet_to_string_b(JanetBuffer *buffer, Janet x) {
